@@ -1754,7 +1754,7 @@ func main() {
 			g.ne, g.le, g.bt, g.bf, coqList(g.tv), coqList(g.tlv))
 	} else {
 		// an untranslatable plumbing function: a glob that cannot match (IsTV accepting nothing, empty headers)
-		b.WriteString("(* encodeParams / IsTV / b2b NOT translated: " + strings.ReplaceAll(strings.Join(g.errs, " | "), "*)", "* )") + " *)\n")
+		b.WriteString("(* encodeParams / IsTV / b2b NOT translated: " + commentSafe(strings.Join(g.errs, " | ")) + " *)\n")
 		b.WriteString("Definition enc_glob : glob :=\n  {| g_istv_ne := 0; g_istv_le := 0; g_b2b_true := 0; g_b2b_false := 0; g_tv_hdr := []; g_tlv_hdr := [] |}.\n\n")
 	}
 	var entries []string
@@ -1763,7 +1763,7 @@ func main() {
 	for _, c := range conts {
 		nodes += c.Nodes
 		if !c.Ok {
-			b.WriteString("(* " + c.Name + " NOT translated: " + strings.ReplaceAll(c.Error, "*)", "* )") + " *)\n")
+			b.WriteString("(* " + c.Name + " NOT translated: " + commentSafe(c.Error) + " *)\n")
 			continue
 		}
 		nfun += len(c.Functions)
@@ -1806,4 +1806,12 @@ func main() {
 		fmt.Fprintln(os.Stderr, "go-enc-ir: plumbing:", e)
 	}
 	fmt.Printf("go-enc-ir: %d containers, %d failed, %d functions, %d IR nodes\n", len(conts), nfail, nfun, nodes)
+}
+
+// commentSafe makes a diagnostic text safe inside a Coq comment: Coq lexes string literals and nested comment brackets
+// inside comments too, so an odd number of double quotes or a stray bracket would make the generated file unreadable
+func commentSafe(s string) string {
+	s = strings.ReplaceAll(s, "\"", "'")
+	s = strings.ReplaceAll(s, "(*", "( *")
+	return strings.ReplaceAll(s, "*)", "* )")
 }
